@@ -179,6 +179,12 @@ def extract(repo):
     # ------------------------------------------------------------------ connection.rs
     cn = Source(repo + '/h3/src/connection.rs')
     body, spans['ConnectionInner::shutdown'] = cn.fn_body('shutdown')
+    # F22: a failed connection reports its error instead of shutting down; must come before the monotone guard
+    eg = re.search(r'if\s+let\s+Some\(err\)\s*=\s*self\.get_conn_error\(\)\s*\{\s*return\s+Err\(self\.handle_connection_error\(err\)\)\s*;\s*\}', body)
+    mg = re.search(r'if\s+let\s+Some\(sent_id\)\s*=\s*sent_closing', body)
+    f['shutdown_error_guard'] = bool(eg) and (mg is None or eg.start() < mg.start())
+    if not eg and 'get_conn_error' in body:
+        raise AnchorLost('ConnectionInner::shutdown: unrecognised use of get_conn_error')
     m = re.search(r'if\s+let\s+Some\(sent_id\)\s*=\s*sent_closing\s*\{\s*if\s+\*sent_id\s*(\S+)\s*max_id\s*\{\s*return\s+Ok\(\(\)\)\s*;', body)
     if m:
         f['guard_present'] = True
@@ -261,6 +267,13 @@ def extract(repo):
         f['closing_retest_after_open'] = False
         f['closing_retest_reset'] = None
     ce = Source(repo + '/h3/src/error/connection_error_creators.rs')
+    hb, spans['handle_frame_stream_error_on_request_stream'] = ce.fn_body('handle_frame_stream_error_on_request_stream', nth=1)
+    mt = re.search(r'FrameStreamError::UnexpectedEnd\s*=>\s*\{\s*self\.handle_connection_error_on_stream\(\s*InternalConnectionError::new\(\s*Code::(\w+)', hb)
+    if not mt:
+        raise AnchorLost('handle_frame_stream_error_on_request_stream: UnexpectedEnd arm')
+    f['truncated_code'] = mt.group(1)
+    if not re.search(r'FrameStreamError::Quic\(error\)\s*=>\s*self\.handle_quic_stream_error\(error\)', hb):
+        raise AnchorLost('handle_frame_stream_error_on_request_stream: Quic arm')
     body, spans['check_peer_connection_closing'] = ce.fn_body('check_peer_connection_closing')
     f['closing_test_reads_flag'] = bool(re.search(r'if\s+self\.is_closing\(\)\s*\{\s*return\s+Some\(StreamError::RemoteClosing\)', body))
 
@@ -320,7 +333,10 @@ def render(f):
          '(* RequestResolver::accept_with_frame: connection errors *)',
          'Definition headers_unexpected_code : N := %s.' % f['unexpected_code'],
          'Definition headers_qpack_code : N := %s.' % f['qpack_code'],
+         '(* a HEADERS frame cut by the end of the stream (FrameStreamError::UnexpectedEnd on a request stream) *)',
+         'Definition headers_truncated_code : N := %s.' % f['truncated_code'],
          '(* ConnectionInner::shutdown *)',
+         'Definition shutdown_error_guard : bool := %s.' % b(f['shutdown_error_guard']),
          'Definition guard_present : bool := %s.' % b(f['guard_present']),
          'Definition guard_cmp : cmpop := %s.' % f['guard_cmp'],
          'Definition shutdown_sets_closing : bool := %s.' % b(f['shutdown_sets_closing']),
